@@ -955,6 +955,19 @@ func c44GPGToGo(g *gpgEnv, p *keyPool, cs *c44Case, bufSize int) (skip string, e
 		// gpg declined to produce the message: its policy, not the package's problem
 		return "gpg refused to produce: " + lastLine(se), nil
 	}
+	// gpgAccepts: does gpg accept what it just made?  (Only asked before a rejection is blamed on the package.)
+	gpgAccepts := func() bool {
+		if strings.HasPrefix(cs.op, "detach") {
+			_, se, rc, e := g.run(nil, "--verify", g.file(so), g.file(cs.msg))
+			return e == nil && rc == 0 && statusHas(se, "GOODSIG")
+		}
+		vargs := []string{"--decrypt"}
+		if cs.op == "symmetric" {
+			vargs = []string{"--passphrase-file", g.file(cs.pass), "--decrypt"}
+		}
+		_, se, rc, e := g.run(so, vargs...)
+		return e == nil && rc == 0 && (cs.signer == nil || statusHas(se, "GOODSIG"))
+	}
 	if strings.HasPrefix(cs.op, "detach") {
 		ring := c44Ring(p, cs, -1)
 		var signer *openpgp.Entity
@@ -970,6 +983,9 @@ func c44GPGToGo(g *gpgEnv, p *keyPool, cs *c44Case, bufSize int) (skip string, e
 			return "", fmt.Errorf("CheckDetachedSignature on gpg output %s", pn)
 		}
 		if err != nil || signer == nil || signer.PrimaryKey.KeyId != cs.signer.ent.PrimaryKey.KeyId {
+			if !gpgAccepts() {
+				return "gpg does not accept its own output", nil
+			}
 			return "", fmt.Errorf("gpg-made detached signature (%v) rejected: %v", args, err)
 		}
 		return "", nil
@@ -977,6 +993,9 @@ func c44GPGToGo(g *gpgEnv, p *keyPool, cs *c44Case, bufSize int) (skip string, e
 	r := c44ReadMessage(so, c44Ring(p, cs, -1), cs.pass, bufSize)
 	if r.panicked != nil {
 		return "", fmt.Errorf("reading gpg output %s", r.panicked)
+	}
+	if (r.err != nil || r.readErr != nil || r.md.SignatureError != nil || (cs.signer != nil && !r.verified())) && !gpgAccepts() {
+		return "gpg does not accept its own output", nil
 	}
 	if r.err != nil || r.readErr != nil {
 		return "", fmt.Errorf("gpg-made message (%v) not readable: ReadMessage err=%v, body err=%v", args, r.err, r.readErr)
